@@ -3,7 +3,7 @@ import re
 
 import common as C
 
-HDR = ("From Coq Require Import List NArith Bool.\nFrom RB Require Import Base.Result Model.Buffer Corr.Common Corr.BufferC.\n"
+HDR = ("From Coq Require Import List NArith Bool.\nFrom RB Require Import Base.Result Model.Buffer Model.BufferOps Corr.Common Corr.BufferC.\n"
        "Import ListNotations.\nLocal Open Scope N_scope.\n")
 
 
